@@ -408,8 +408,46 @@ func c14History(c *Ctx, idx int) {
 				}
 				r.Obs("control_failovers_after_failed_refresh", 1)
 			} else {
+				// every other time a schema change happens in the cluster at the moment the new control connection registers:
+				// its event is written right behind the READY that answers the REGISTER
+				var fired, firedConn int32
+				var rid string
+				var rev *message.SchemaChangeEvent
+				if len(beds) == 1 && rng.Intn(2) == 0 {
+					evSeq++
+					rid = fmt.Sprintf("%d_%d", idx, evSeq)
+					rev = schemaEvent(rid, rng.Intn(15))
+					bed.Cluster.SetOnRegister(func(x *fakecass.Conn) {
+						if atomic.CompareAndSwapInt32(&fired, 0, 1) {
+							atomic.StoreInt32(&firedConn, int32(x.ID))
+							_ = x.EmitOn(rev)
+						}
+					})
+				}
 				for _, x := range bed.Cluster.ControlConns() {
 					x.Kill(rng.Intn(2) == 0)
+				}
+				up := controlUp()
+				bed.Cluster.SetOnRegister(nil)
+				if up && rev != nil && atomic.LoadInt32(&fired) == 1 {
+					// owed to every registered client if the connection it was written to is the control connection now
+					est := bed.Cluster.EstablishedControlConns()
+					if len(est) == 1 && int32(est[0].ID) == atomic.LoadInt32(&firedConn) {
+						ex := &expectation{must: map[*c14Client]bool{}, may: map[*c14Client]bool{}}
+						for _, cc := range clients {
+							if cc.registered && !cc.cl.IsClosed() {
+								ex.must[cc] = true
+							}
+						}
+						injected[rid] = rev
+						origin[rid] = shape.String()
+						expect[rid] = ex
+						r.Obs("schema_events_injected", 1)
+						r.Obs("events_right_behind_the_register_reply", 1)
+						if !barrier() {
+							return
+						}
+					}
 				}
 			}
 			if !controlUp() {
